@@ -122,7 +122,7 @@ pub fn opening_pairs(case: &Case) -> Vec<Value> {
     out
 }
 
-const RATIOS: [(i64, i64); 7] = [(2, 1), (1, 2), (5, 2), (2, 5), (4, 1), (1, 4), (10, 1)];
+const RATIOS: [(i64, i64); 9] = [(2, 1), (1, 2), (5, 2), (2, 5), (4, 1), (1, 4), (10, 1), (4, 3), (7, 3)];
 
 /// C15: (a) a split-free history, (b) the same history with a post-for-pre split inserted before
 /// row k (one row for all affiliates, or one per affiliate) and every later share quantity
@@ -144,11 +144,16 @@ pub fn split_pairs(case: &Case, seed: u64) -> Vec<Value> {
             Some(a) if a["status"] == "ok" => a.clone(),
             _ => continue,
         };
-        for _ in 0..2 {
-            let k = rng.gen_range(0..=rows.len());
-            let (post, pre) = RATIOS[rng.gen_range(0..RATIOS.len())];
-            let per_aff = rng.gen_bool(0.4);
-            let f = Decimal::from(post) / Decimal::from(pre);
+        // two random (position, ratio) choices, and for short histories every position with a forward ratio that
+        // is a repeating decimal (4-for-3): the restated quantities are exact only for multiples of three
+        let mut choices: Vec<(usize, (i64, i64), bool)> = (0..2).map(|_| (rng.gen_range(0..=rows.len()), RATIOS[rng.gen_range(0..RATIOS.len())], rng.gen_bool(0.4))).collect();
+        if rows.len() <= 4 {
+            for k in 0..rows.len() {
+                choices.push((k, (4, 3), k % 2 == 1));
+            }
+        }
+        for (k, (post, pre), per_aff) in choices {
+            let (postd, pred) = (Decimal::from(post), Decimal::from(pre));
             let day = if k < rows.len() { rows[k].sd } else { rows[rows.len() - 1].sd };
             let mut brow: Vec<Row> = rows[..k].to_vec();
             let ratio = format!("{}-for-{}", post, pre);
@@ -177,17 +182,18 @@ pub fn split_pairs(case: &Case, seed: u64) -> Vec<Value> {
                 let mut r2 = r.clone();
                 match norm_act(&r.act) {
                     "Buy" | "Sell" | "Sfla" => {
-                        let q = r.q.dec().unwrap_or_default() * f;
-                        let p = r.p.dec().unwrap_or_default() / f;
-                        if (q / f) != r.q.dec().unwrap_or_default() || (p * f) != r.p.dec().unwrap_or_default() {
+                        // exactly: multiply first, then divide
+                        let q = r.q.dec().unwrap_or_default() * postd / pred;
+                        let p = r.p.dec().unwrap_or_default() * pred / postd;
+                        if q * pred != r.q.dec().unwrap_or_default() * postd || p * postd != r.p.dec().unwrap_or_default() * pred || q.scale() > 10 || p.scale() > 12 {
                             representable = false;
                         }
                         r2.q = num(q);
                         r2.p = num(p);
                     }
                     "Roc" => {
-                        let p = r.p.dec().unwrap_or_default() / f;
-                        if (p * f) != r.p.dec().unwrap_or_default() {
+                        let p = r.p.dec().unwrap_or_default() * pred / postd;
+                        if p * postd != r.p.dec().unwrap_or_default() * pred || p.scale() > 12 {
                             representable = false;
                         }
                         r2.p = num(p);
